@@ -474,7 +474,7 @@ def grpFind (s : Store) (grp : ObjId) (kind iname iid : String) : Option ObjId :
     if iname.isEmpty && iid.isEmpty then none else
     let needle := if !iid.isEmpty then iid else iname
     let g := if s.hasObject p needle then s.child? p needle
-             else if !iname.isEmpty then s.findGroupByAttribute p "name" iname else none
+             else if !iname.isEmpty && iid.isEmpty then s.findGroupByAttribute p "name" iname else none      -- (fix D44: the name scan only when no id is given)
     match g with
     | some o => if !iname.isEmpty && !iid.isEmpty && s.attr? o "name" != some iname then none else some o
     | none => none
